@@ -226,7 +226,33 @@ func genCase(t *rapid.T) Case {
 	flags := genFlags(t)
 	f := interp.Flags(flags)
 	var p sgen.Program
-	switch rapid.IntRange(0, 9).Draw(t, "level") {
+	switch rapid.IntRange(0, 10).Draw(t, "level") {
+	case 10:
+		// signature-shaped programs: a few pushes (signature / key sized blobs) with an
+		// OP_CODESEPARATOR at any instruction offset of the unlocking script, optionally ended
+		// by a top-level OP_RETURN, against a very short locking script that checks signatures
+		var u []byte
+		n := rapid.IntRange(1, 4).Draw(t, "ss_n")
+		sep := rapid.IntRange(0, n).Draw(t, "ss_sep")
+		for i := 0; i <= n; i++ {
+			if i == sep {
+				u = append(u, 0xab)
+			}
+			if i < n {
+				l := rapid.SampledFrom([]int{0, 1, 2, 9, 33, 65, 71, 72, 73}).Draw(t, "ss_len")
+				d := gen.Bytes(t, l, "ss_blob")
+				if l >= 9 && rapid.Bool().Draw(t, "ss_der") {
+					d[0], d[1], d[2] = 0x30, byte(l-3), 0x02
+				}
+				u = append(u, sgen.Push(d, 0)...)
+			}
+		}
+		if rapid.IntRange(0, 2).Draw(t, "ss_ret") != 0 {
+			u = append(u, 0x6a)
+			f |= interp.FlagAfterGenesis
+		}
+		l := rapid.SampledFrom([][]byte{{0xac}, {0xad}, {0xae}, {0xaf}, {0x51, 0xae}, {0xac, 0x91}, {0x00, 0xac}, {0x76, 0xac}}).Draw(t, "ss_lock")
+		p = sgen.Program{Unlock: u, Lock: l, Flags: f, Level: "L6-sigshape"}
 	case 0, 1:
 		p = sgen.RawBytes(t, f, 80)
 		if rapid.IntRange(0, 9).Draw(t, "longraw") == 0 {
